@@ -23,7 +23,7 @@ def run_impl(case):
     dw = rnd.choice([8, 8, 16, 32]) if n > 3 else rnd.choice([1, 2, 8, 16])
     al = rnd.choice([0, 0, 1, 2])
     modes = [rnd.choice(["level", "rise", "fall"]) for _ in range(n)]
-    em = event.EventMap()
+    em = simutil.mk_event_map(lib.rng_for(case["seed"], case["idx"], 1352))
     us_ = lib.rng_for(case["seed"], case["idx"], 1451)
     srcs = [simutil.mk_source(m, us_) for m in modes]
     rep_rng = lib.rng_for(case["seed"], case["idx"], 1444)
@@ -31,6 +31,13 @@ def run_impl(case):
         em.add(s)
         if rep_rng.random() < 0.15:
             em.add(srcs[rep_rng.randrange(k_ + 1)])        # adding a source again changes nothing
+    if lib.rng_for(case["seed"], case["idx"], 1453).random() < .25 and n >= 2:
+        # some of the sources are also members of ANOTHER event map (a wake-up map next to the interrupt map), filled
+        # afterwards in another order: this map's numbering is its own
+        other_map = event.EventMap()
+        for s_ in reversed(srcs[1:]):
+            other_map.add(s_)
+        other_map.freeze()
     dut = csr.EventMonitor(em, trigger=rnd.choice(["level", "rise"]), data_width=dw, alignment=al)
     mm = dut.bus.memory_map
     lay = {tuple(i.path[0])[0]: (i.start, i.end) for i in mm.all_resources()}
